@@ -91,7 +91,7 @@ def replay(t):
     hist = t["hist"]
     hid = hashlib.sha1(json.dumps(hist).encode()).hexdigest()
     doc = base_doc()
-    cur, registered = None, set()
+    cur, registered, cur_target = None, set(), doc
     prevs = {}                      # validation target -> (issues, world digest) of its last run
     lastv, lastkey = None, None
     tmpdir = tempfile.mkdtemp(prefix="reg", dir=os.environ.get("TMPDIR"))
@@ -112,7 +112,7 @@ def replay(t):
                 lastv, lastkey = doc.validate(), "doc"
                 issues = issues_of(lastv.errors)
             elif op == "section_validate":
-                lastv, lastkey = V.Validation(doc.sections[1]), "sec"
+                lastv, lastkey = V.Validation(doc.sections[0]), "sec"          # a Section with Properties and a sub-Section
                 issues = issues_of(lastv.errors)
             elif op == "property_validate":
                 lastv, lastkey = V.Validation(doc.sections[0].properties[0]), "prop"
@@ -125,7 +125,10 @@ def replay(t):
                 issues = issues_of(lastv.errors)
             elif op == "new_custom":
                 # both documented ways of making a private validation
-                cur = V.Validation(doc, reset=True) if int(hid[4:6], 16) % 2 else V.Validation(doc, validate=False, reset=True)
+                # ... on the document, or prepared on an object that is still empty (no Sections / children / values)
+                sel = int(hid[4:6], 16) % 5
+                cur_target = [doc, doc, odml.Document(), odml.Section(name="empty", type="t"), odml.Property(name="novalues")][sel]
+                cur = V.Validation(cur_target, reset=True) if sel == 0 else V.Validation(cur_target, validate=False, reset=True)
                 registered = set()
             elif op == "register_optional" and cur is not None:
                 cur.register_custom_handler("section", V.section_repository_present)
@@ -141,7 +144,14 @@ def replay(t):
                 # the same unchanged objects validated again by the same private instance
                 cur.run_validation()
                 rerun_same = sorted(map(json.dumps, issues_of(cur.errors))) == sorted(map(json.dumps, issues))
-                for s in doc.itersections():
+                tsecs = list(cur_target.itersections()) if hasattr(cur_target, "itersections") else []
+                if isinstance(cur_target, odml.section.BaseSection):
+                    tsecs = [cur_target] + tsecs
+                tprops = [cur_target] if isinstance(cur_target, odml.property.BaseProperty) else []
+                for p in tprops:
+                    if "property" in registered:
+                        expected.append({"x": "BaseProperty|%s" % p.get_path(), "k": 701, "rank": "warning", "m": "custom rule fired"})
+                for s in tsecs:
                     if "section" in registered:
                         expected.append({"x": "BaseSection|%s" % s.get_path(), "k": 701, "rank": "warning", "m": "custom rule fired"})
                     for p in s.properties:
